@@ -2,7 +2,8 @@
 cases, execution against pvl with the recogniser as oracle."""
 from . import core, gen, refparse, chan, dialects
 from .gen import (Tok, NAME, NUM, STR, DATE, KWVAL, BEGIN_G, BEGIN_O, END_G,
-                  END_O, END, EQ, COMMA, LP, RP, LB, RB, SEMI, UNITS, PARTIAL)
+                  END_O, END, EQ, COMMA, LP, RP, LB, RB, SEMI, UNITS, PARTIAL,
+                  BADUNITS)
 
 REPLACEMENTS = [
     (NAME, "Zq9", ("str", "Zq9")), (NUM, "5", ("int", 5)),
@@ -12,6 +13,7 @@ REPLACEMENTS = [
     (BEGIN_O, "OBJECT", None), (END_G, "END_GROUP", None),
     (END_O, "END_OBJECT", None), (UNITS, "<u>", None),
     (KWVAL, "NULL", ("none",)), (DATE, "2001-01-01", ("date", "2001-01-01")),
+    (BADUNITS, "<m<s>", None), (BADUNITS, "<km x = 3 <m>", None),
 ]
 OPPOSITE = {END_G: (END_O, "END_OBJECT"), END_O: (END_G, "END_GROUP"),
             BEGIN_G: (BEGIN_O, "OBJECT"), BEGIN_O: (BEGIN_G, "GROUP"),
@@ -31,7 +33,7 @@ def tok_from(j):
 def value_of(tok):
     if tok.val is not None:
         return tok.val
-    return ("str", tok.text)
+    return ("str", tok.text)    # e.g. BEGIN_GROUP read as a name under ISIS
 
 
 # ---- fault plans -----------------------------------------------------------
@@ -75,7 +77,10 @@ def random_plan(rng, toks, nfaults, kinds):
         if kind == "replace":
             t = toks[at]
             x = rng.random()
-            if t.kind in OPPOSITE and x < 0.5:
+            if t.kind == UNITS and x < 0.5:
+                f.update(tkind=BADUNITS, text=t.text[:-1] + " <s>",
+                         val=None)
+            elif t.kind in OPPOSITE and x < 0.5:
                 k2, text = OPPOSITE[t.kind]
                 f.update(tkind=k2, text=text, val=None)
             elif t.role in ("block-name", "end-name") and x < 0.6:
